@@ -32,18 +32,18 @@ theorem ofSpec_eq_bool (t : Spec.Thrift.TT) : ofSpec t = TType.bool ↔ t = .boo
 
 /-- one declared record with its header in EITHER form, after ANY previous id `last`: the loop finds the descriptor by
 id, stores the decoded value at the declared position and continues with `last := id` -/
-theorem decodeStruct_step (strict : Bool) (descs : List FieldDesc) (Z T : Vals) (B : Nat)
-    (f : Spec.Thrift.FRec) (hd : DecRec .compact strict descs Z T B (conv f))
+theorem decodeStruct_step (strict : Bool) (d : Nat) (descs : List FieldDesc) (Z T : Vals) (B : Nat)
+    (f : Spec.Thrift.FRec) (hd : DecRec .compact strict d descs Z T B (conv f))
     (last : Int) (hdr : Bytes) (hh : FieldHdrB (tcode f.t f.isTrue) f.id last hdr) (fuel : Nat)
     (hf' : f.t ≠ .bool → f.body.length + B ≤ fuel)
     (vs : Vals) (hz : Vals.get vs (posOf descs f.id) = Vals.get Z (posOf descs f.id))
     (num : Nat) (seen : List Int) (tail : Bytes) :
-    decodeStruct .compact strict (fuel + 1) descs (hdr ++ (if f.t == .bool then [] else f.body) ++ tail) vs last num seen
-      = decodeStruct .compact strict fuel descs tail
+    decodeStruct .compact strict d (fuel + 1) descs (hdr ++ (if f.t == .bool then [] else f.body) ++ tail) vs last num seen
+      = decodeStruct .compact strict d fuel descs tail
           (Vals.set vs (posOf descs f.id) (Vals.get T (posOf descs f.id))) f.id (num + 1) (f.id :: seen) := by
-  obtain ⟨h1, h2, hr, hnt, d, hfind, hty, _, hbool, hval⟩ := hd
+  obtain ⟨h1, h2, hr, hnt, fd, hfind, hty, _, hbool, hval⟩ := hd
   simp only [conv] at h1 h2 hr hnt hfind hty hbool hval
-  have hpos : posOf descs f.id = d.pos := by simp [posOf, hfind]
+  have hpos : posOf descs f.id = fd.pos := by simp [posOf, hfind]
   rw [hpos] at hz ⊢
   obtain ⟨fh, hrd, hty', hid⟩ := rField_FieldHdrB _ (tcode_range f.t f.isTrue) f.id last
     ⟨by omega, by omega⟩ hh ((if f.t == .bool then [] else f.body) ++ tail)
@@ -51,7 +51,7 @@ theorem decodeStruct_step (strict : Bool) (descs : List FieldDesc) (Z T : Vals) 
   rw [List.append_assoc, decodeStruct, hrd]
   by_cases hb : f.t = .bool
   · have hbw := hbool (by rw [hb]; rfl)
-    have htm : typeOf d.ty = TType.bool := by rw [hty, hb]; rfl
+    have htm : typeOf fd.ty = TType.bool := by rw [hty, hb]; rfl
     simp only [hb, tOut] at hty'
     cases hT : f.isTrue
     · rw [hT] at hty' hbw
@@ -74,7 +74,7 @@ theorem decodeStruct_step (strict : Bool) (descs : List FieldDesc) (Z T : Vals) 
     simp only [hty', ne_stop_of_real _ hr, Bool.false_eq_true, if_false, hid, wrap16_id f.id ⟨h1, h2⟩, hfind,
       hty, bne_self_eq_false, Bool.false_and, Proto.coalesce, Bool.true_and, hco]
     rw [hz]
-    val_step d hval hf
+    val_step fd hval hf
 
 theorem Stream_length_pos {l : List Spec.Thrift.FRec} {last : Int} {bs : Bytes} (h : Stream l last bs) :
     1 ≤ bs.length := by
@@ -88,23 +88,23 @@ theorem Stream_length_pos {l : List Spec.Thrift.FRec} {last : Int} {bs : Bytes} 
 final ones; `cur` already agrees with `T` outside the positions of the remaining records and still has the initial
 values there. The records may come in any order of ids and with either header form: the result and the set of ids seen
 are the same. -/
-theorem decodeStruct_stream (strict : Bool) (descs : List FieldDesc) (Z T : Vals) (B : Nat) :
+theorem decodeStruct_stream (strict : Bool) (d : Nat) (descs : List FieldDesc) (Z T : Vals) (B : Nat) :
     ∀ {l : List Spec.Thrift.FRec} {last : Int} {bs : Bytes}, Stream l last bs →
       ∀ (num fuel : Nat) (cur : Vals) (seen : List Int) (rest : Bytes),
-      (∀ f ∈ l, DecRec .compact strict descs Z T B (conv f)) →
+      (∀ f ∈ l, DecRec .compact strict d descs Z T B (conv f)) →
       l.Pairwise (fun a b => posOf descs a.id ≠ posOf descs b.id) →
       cur.length = T.length →
       (∀ f ∈ l, Vals.get cur (posOf descs f.id) = Vals.get Z (posOf descs f.id)) →
       (∀ n, (∀ f ∈ l, posOf descs f.id ≠ n) → Vals.get cur n = Vals.get T n) →
       bs.length + B ≤ fuel →
-      decodeStruct .compact strict fuel descs (bs ++ rest) cur last num seen
+      decodeStruct .compact strict d fuel descs (bs ++ rest) cur last num seen
         = .ok ((T, (l.map (·.id)).reverse ++ seen), rest) := by
   intro l last bs hs
   induction hs with
   | stop last =>
     intro num fuel cur seen rest _ _ hlen _ hT hf
     simp only [List.length_cons, List.length_nil] at hf
-    have := decodeStruct_stop .compact strict fuel descs rest cur last num seen (by omega)
+    have := decodeStruct_stop .compact strict d fuel descs rest cur last num seen (by omega)
     simp only [wStopField] at this
     rw [this, ext_get cur T hlen (fun n => hT n (fun _ h => by cases h))]
     simp
@@ -117,7 +117,7 @@ theorem decodeStruct_stream (strict : Bool) (descs : List FieldDesc) (Z T : Vals
     simp only [List.length_append] at hf
     obtain ⟨fu, rfl⟩ : ∃ fu, fuel = fu + 1 := ⟨fuel - 1, by omega⟩
     have hpos : posOf descs f.id < T.length := by
-      obtain ⟨_, _, _, _, d, hfind, _, hp, _⟩ := hdf
+      obtain ⟨_, _, _, _, fd, hfind, _, hp, _⟩ := hdf
       simp only [conv] at hfind hp
       simpa [posOf, hfind] using hp
     have hfu : f.t ≠ .bool → f.body.length + B ≤ fu := by
@@ -125,7 +125,7 @@ theorem decodeStruct_stream (strict : Bool) (descs : List FieldDesc) (Z T : Vals
       have : (f.t == Spec.Thrift.TT.bool) = false := by simpa using hb
       simp only [this, Bool.false_eq_true, if_false] at hf
       omega
-    rw [List.append_assoc, decodeStruct_step strict descs Z T B f hdf last hdr hh fu hfu cur
+    rw [List.append_assoc, decodeStruct_step strict d descs Z T B f hdf last hdr hh fu hfu cur
       (hZ f (List.mem_cons_self ..))]
     rw [ih (num + 1) fu _ (f.id :: seen) rest
       (fun g hg => hd g (List.mem_cons_of_mem _ hg)) hpp.2 (by rw [length_set]; exact hlen)
